@@ -5,7 +5,7 @@ EXTENDS MCGen
 OpsV == {"GoNew", "Sentinel", "Errno", "New", "Newf", "Wrapf", "Unimplemented", "WithHint", "WithDetail",
          "WithTelemetry", "WithDomain", "WithIssueLink", "WithContextTags", "WithAssertionFailure",
          "WrapWithHTTPCode", "WrapWithGrpcCode", "Mark", "WithSecondaryError", "CombineErrors",
-         "Handled", "Opaque", "HandledWithMessage", "HandledInDomain", "HandledInDomainWithMessage",
+         "Handled", "Opaque", "HandledWithMessage", "HandledInDomain", "EnsureNotInDomain", "HandledInDomainWithMessage",
          "HandleAsAssertionFailure", "NewAssertionErrorWithWrappedErrf", "Hop"}
 ShapesV == {<<"w1">>, <<"w3">>}
 Shapes2V == {<<"w2">>}
